@@ -2,9 +2,9 @@
    Directives used: those of ExtrOcamlBasic only (bool, option, unit, prod, list, sumbool, sumor
    as OCaml types; andb/orb/negb/fst/snd inlined).  nat, N, Z, positive stay inductive. *)
 From Coq Require Import ExtrOcamlBasic.
-From Fences Require Import Base Graph GraphCheck Format OpenApi.
+From Fences Require Import Base Graph GraphOps GraphCheck Format OpenApi.
 Extraction Language OCaml.
 Extraction "model.ml" build apply_op items generate_paths execute executev exec V_pinned V_fixed aempty
-  wfb productiveb acyclicb
+  wfb productiveb acyclicb ins_okb outs_okb resolve optimize
   format_parameter_value decode shape_of strs
   generate_all generate_one_valid step empty_cache.
